@@ -176,7 +176,7 @@ class Case:
             return kind, None, np.zeros(tuple(self.n), bool)
 
         def vals(shape):
-            v = rng.normal(size=shape) * 10.0 ** rng.uniform(-3, 3)
+            v = rng.normal(size=shape) * 10.0 ** rng.uniform(-15, 6)  # SI-scale filters (nm thickness ...)
             v[rng.random(shape) < 0.35] = 0.0
             return v
 
@@ -272,7 +272,7 @@ def finish(ctx, case, kind, extra, drawn):
 def scalar(ctx):
     rng = ctx.rng
     case = Case(rng)
-    vals = rng.normal(size=tuple(case.n)) * 10.0 ** rng.uniform(-3, 6)
+    vals = rng.normal(size=tuple(case.n)) * 10.0 ** rng.uniform(-15, 9)
     f = df.Field(case.mesh, nvdim=1, value=vals[..., None], valid=case.valid.copy(),
                  unit=gen.pick(rng, [None, "A/m"]))
     fkind, ff, fhid = case.filter(rng)
@@ -318,7 +318,7 @@ def make_vector(rng, case, nvdim):
 
     Returns (field, array, labels, ix, iy, iother): component indices along axis 0 / 1."""
     n = tuple(case.n)
-    arr = rng.normal(size=(*n, nvdim)) * 10.0 ** rng.uniform(-3, 6)
+    arr = rng.normal(size=(*n, nvdim)) * 10.0 ** rng.uniform(-15, 9)
     pools = {2: [None, ["a", "b"], ["mx", "my"], ["y", "x"]],
              3: [None, ["a", "b", "c"], ["mx", "my", "mz"], ["z", "x", "y"]]}
     vdims = gen.pick(rng, pools[nvdim])
@@ -362,7 +362,7 @@ def vector(ctx):
         kw["use_color"] = False
     if mode == "colour_field":
         ckind = gen.pick(rng, ["same", "other"])
-        cf, colour = case.aux_field(lambda shape: rng.normal(size=shape) * 10.0 ** rng.uniform(-2, 4),
+        cf, colour = case.aux_field(lambda shape: rng.normal(size=shape) * 10.0 ** rng.uniform(-12, 6),
                                     ckind)
         kw["color_field"] = cf
         aux.append(cf)
@@ -428,7 +428,7 @@ def contour(ctx):
     # smooth-ish values so that contouring has something to do
     g = np.meshgrid(np.linspace(0, 1, case.n[0]), np.linspace(0, 1, case.n[1]), indexing="ij")
     vals = (np.sin(3 * g[0] + rng.uniform(0, 6)) + np.cos(2 * g[1] + rng.uniform(0, 6))
-            + 0.3 * rng.normal(size=tuple(case.n))) * 10.0 ** rng.uniform(-3, 6)
+            + 0.3 * rng.normal(size=tuple(case.n))) * 10.0 ** rng.uniform(-15, 9)
     if not case.valid.any():
         case.valid[0, 0] = True
     f = df.Field(case.mesh, nvdim=1, value=vals[..., None], valid=case.valid.copy())
@@ -496,7 +496,7 @@ def lightness(ctx):
     kw = {"colorwheel": bool(rng.random() < 0.15)}
     lkind = gen.pick(rng, ["default", "default", "same", "other"])
     if lkind != "default":
-        lf, light = case.aux_field(lambda shape: rng.normal(size=shape) * 10.0 ** rng.uniform(-2, 4),
+        lf, light = case.aux_field(lambda shape: rng.normal(size=shape) * 10.0 ** rng.uniform(-12, 6),
                                    lkind)
         kw["lightness_field"] = lf
         aux.append(lf)
